@@ -291,6 +291,20 @@ func (s *VerifStore) AbandonStore() {
 	s.Dead = true
 }
 
+// VerifLockFree reports whether nobody holds the store lock (used between
+// statements, when no goroutine of the engine is running: a lock still held
+// then was leaked by the statement that just returned).
+func VerifLockFree(rs *RelationService) bool {
+	if rs == nil {
+		return true
+	}
+	if !rs.fs.mtx.TryLock() {
+		return false
+	}
+	rs.fs.mtx.Unlock()
+	return true
+}
+
 // VerifMarkClosed tells the shim that the relation service was closed by the
 // code under test (its goroutine is gone).
 func VerifMarkClosed(rs *RelationService) {
